@@ -19,6 +19,7 @@ import (
 	"verifharness/aoflog"
 	"verifharness/core"
 	"verifharness/kmodel"
+	"verifharness/probes"
 	"verifharness/respc"
 	"verifharness/srv"
 )
@@ -818,6 +819,8 @@ func Run(ctx *core.Ctx) {
 	}
 	stats := map[string]int64{}
 	var smu sync.Mutex
+	// ---- no refused command leaves part of its work behind (RENAME over a key with a channel, ...)
+	probes.RefusedChangesNothing(ctx, bin, "c07")
 	// ---- long histories, log-order checker
 	nLong := ctx.Pick(8, 120)
 	var wg sync.WaitGroup
